@@ -66,7 +66,7 @@ pub struct Interpreter<TStdlib: Stdlib, TStdIn: Input, TStdOut: Printer, TLpt1: 
     var_path_stack: VecDeque<Path>,
 
     /// Temporarily holds byref values that are to be copied back to the calling context
-    by_ref_stack: VecDeque<Variant>,
+    by_ref_stack: VecDeque<(Variant, Option<Path>)>,
 
     function_result: Option<Variant>,
 
@@ -143,7 +143,7 @@ impl<TStdlib: Stdlib, TStdIn: Input, TStdOut: Printer, TLpt1: Printer> Interpret
         &mut self.register_stack
     }
 
-    fn by_ref_stack(&mut self) -> &mut VecDeque<Variant> {
+    fn by_ref_stack(&mut self) -> &mut VecDeque<(Variant, Option<Path>)> {
         &mut self.by_ref_stack
     }
 
@@ -420,7 +420,10 @@ impl<TStdlib: Stdlib, TStdIn: Input, TStdOut: Printer, TLpt1: Printer>
                 subprogram::enqueue_to_return_stack(self, *index);
             }
             Instruction::DequeueFromReturnStack => {
-                subprogram::dequeue_from_return_stack(self);
+                subprogram::dequeue_from_return_stack(self, false);
+            }
+            Instruction::DequeueFromReturnStackWithPath => {
+                subprogram::dequeue_from_return_stack(self, true);
             }
             Instruction::StashFunctionReturnValue(function_name) => {
                 subprogram::stash_function_return_value(self, function_name);
@@ -436,6 +439,9 @@ impl<TStdlib: Stdlib, TStdIn: Input, TStdOut: Printer, TLpt1: Printer>
             }
             Instruction::PushNamed(param_name) => {
                 subprogram::push_a_to_named_arg(self, param_name);
+            }
+            Instruction::PushNamedByRef(param_name) => {
+                subprogram::push_a_to_named_arg_by_ref(self, param_name);
             }
             Instruction::BuiltInSub(s) => {
                 // the stacktrace should be already populated by Instruction::PushStack
